@@ -188,6 +188,11 @@ func (ex *exec) specStaticType(fc *FuncContract, fn *ssa.Function, c *ssa.CallCo
 				return typs[i]
 			}
 		}
+		if sp := ex.vc.eng.spkgs[fc.Pkg]; sp != nil {
+			if g, ok := sp.Members[x.Name].(*ssa.Global); ok {
+				return g.Type().(*types.Pointer).Elem()
+			}
+		}
 	case *SSelect:
 		bt := ex.specStaticType(fc, fn, c, x.X)
 		if bt == nil {
@@ -264,6 +269,13 @@ func calleeParamInfo(fc *FuncContract, fn *ssa.Function, c *ssa.CallCommon) ([]s
 // assignHeapNames: heap maps touched by one assigns location (type-directed).
 func (ex *exec) assignHeapNames(fc *FuncContract, fn *ssa.Function, c *ssa.CallCommon, a AssignLoc) ([]string, error) {
 	vc := ex.vc
+	if id, ok := a.E.(*SIdent); ok {
+		if sp := vc.eng.spkgs[fc.Pkg]; sp != nil {
+			if g, ok := sp.Members[id.Name].(*ssa.Global); ok {
+				return []string{vc.globalHeap(g).name}, nil
+			}
+		}
+	}
 	switch x := a.E.(type) {
 	case *SSelect:
 		bt := ex.specStaticType(fc, fn, c, x.X)
@@ -530,8 +542,27 @@ func (ex *exec) bindResults(x *ssa.Call, results []Val) {
 }
 
 // havocAssign havocs exactly the location named by an assigns entry (evaluated in the pre-state).
+func (ex *exec) globalOf(env *SpecEnv, name string) *heapInfo {
+	if sp := ex.vc.eng.spkgs[env.pkg]; sp != nil {
+		if g, ok := sp.Members[name].(*ssa.Global); ok {
+			return ex.vc.globalHeap(g)
+		}
+	}
+	return nil
+}
+
 func (ex *exec) havocAssign(st, pre *State, env *SpecEnv, a AssignLoc) error {
 	vc := ex.vc
+	if id, ok := a.E.(*SIdent); ok {
+		if _, isVar := env.lookupVar(id.Name); !isVar {
+			if hi := ex.globalOf(env, id.Name); hi != nil {
+				n := vc.freshConst("hv_"+id.Name, hi.valSort)
+				vc.assume("true", vc.sorts.typeInv(hi.valType, n, st.nextRef))
+				vc.heapSet(st, hi, n)
+				return nil
+			}
+		}
+	}
 	switch x := a.E.(type) {
 	case *SSelect:
 		base, err := env.term(x.X)
@@ -655,7 +686,7 @@ func (ex *exec) fieldCell(env *SpecEnv, base Val, name string) (*heapInfo, strin
 			return vc.fieldHeap(cur, idx), ref, nil
 		}
 		if _, nested := ft.Underlying().(*types.Struct); nested {
-			ref = "(" + vc.fieldAddrFn(cur, idx) + " " + ref + ")"
+			ref = vc.interiorRef(cur, idx, ref)
 			cur = ft
 		} else if p, ok := ft.Underlying().(*types.Pointer); ok {
 			hi := vc.fieldHeap(cur, idx)
@@ -854,7 +885,16 @@ func (ex *exec) frameCheckAgainst(st, base, evalSt *State, assigns []AssignLoc, 
 	allowedElemOne := map[string][][2]string{}
 	allowedSpare := map[string][]string{}
 	allowedMap := map[string][]string{}
+	allowedGlobal := map[string]bool{}
 	for _, a := range assigns {
+		if id, ok := a.E.(*SIdent); ok {
+			if _, isVar := env.lookupVar(id.Name); !isVar && (env.loop == nil || !env.hasLoopLocal(id.Name)) {
+				if hi := ex.globalOf(env, id.Name); hi != nil {
+					allowedGlobal[hi.name] = true
+					continue
+				}
+			}
+		}
 		switch x := a.E.(type) {
 		case *SSelect:
 			b, err := env.term(x.X)
@@ -944,6 +984,9 @@ func (ex *exec) frameCheckAgainst(st, base, evalSt *State, assigns []AssignLoc, 
 		var goal string
 		switch hi.levels {
 		case 0:
+			if allowedGlobal[name] {
+				continue
+			}
 			goal = sEq(cur, old)
 		case 1:
 			var ex2 []string
